@@ -487,7 +487,7 @@ func init() {
 	core.Register(&core.Check{
 		ID:          "C07",
 		Level:       "exploration",
-		Rule:        "programs enumerated exhaustively and evaluated through parse, macro definition/expansion and State.Eval under the harness's own recover, with a 3000-poll counting context, GOMEMLIMIT 1GiB, restricted IO, stdin=/dev/null: every infix operator x every ordered pair from a 48-value universe covering every object type (boundary ints/floats, strings, bool, nil, small/large/nested arrays and maps, named function, lambdas, variadic, extension functions, quote object, caught error), 56 unary and 19 binary forms x every value, index/slice/index-assignment/call x all triples, every builtin and extension x every value in every argument position, every small G-syn tree under several identifier bindings, byte mutations of shipped programs (thorough). Oracle: a panic must be one of the two documented guards (max depth, memory budget); anything else is a violation identified by its panic call site; a dying worker process is a violation attributed to its input. Non-trivial = every case. Also: a debug-log-level pass (unary forms, operator table, C05's one-parameter functions and single loops: the register-rewrite traces); programs and macro bodies evaluated by interpreter states made on the side (unjson, eval, macro expansion); control statements inside builtin arguments with the result compared, sorted, used as a key.",
+		Rule:        "programs enumerated exhaustively and evaluated through parse, macro definition/expansion and State.Eval under the harness's own recover, with a 3000-poll counting context, GOMEMLIMIT 1GiB, restricted IO, stdin=/dev/null: every infix operator x every ordered pair from a 48-value universe covering every object type (boundary ints/floats, strings, bool, nil, small/large/nested arrays and maps, named function, lambdas, variadic, extension functions, quote object, caught error), 56 unary and 19 binary forms x every value, index/slice/index-assignment/call x all triples, every builtin and extension x every value in every argument position, every small G-syn tree under several identifier bindings, byte mutations of shipped programs (thorough). Oracle: a panic must be one of the two documented guards (max depth, memory budget); anything else is a violation identified by its panic call site; a dying worker process is a violation attributed to its input. Non-trivial = every case. Also: a debug-log-level pass (unary forms, operator table, C05's one-parameter functions and single loops: the register-rewrite traces); programs and macro bodies evaluated by interpreter states made on the side (unjson, eval, macro expansion); control statements inside builtin arguments with the result compared, sorted, used as a key. Round 7: prefix slices of small maps whose dropped entry holds a large array or a function, passed to user functions.",
 		Assume:      []string{"sleep() only called with tiny arguments; exec/run absent (restricted IO)"},
 		QuickCap:    240 * time.Second,
 		ThoroughCap: 20 * time.Minute,
